@@ -16,12 +16,13 @@ META = {
         "error members raise ProtocolError, absent/null error returns; AppError.data() returns element 2; C06.3 when no "
         "error is reported the function returns its argument itself; C06.4 every read of [\"result\"] in the client "
         "module is dominated by check_for_errors on the same value, _request_notify checks its reply, and "
-        "_run_request returns None only when the reply body is empty."),
+        "_run_request returns None only when the reply body is empty; C06.5 check_for_errors never modifies the reply it is given "
+        "(a second check / access of the same batch item raises again)."),
     "does_not_decide": "nothing value-level beyond the comparisons; envelope-level rejections raised before the error "
                        "branch (non-dict reply, jsonrpc > 2.0) are outside the property's domain.",
     "rules": {"C06.1": "E4 may-raise analysis restricted to the region dominated by the truthy error member",
               "C06.2": "shape interpreter (E7) over reply shapes vs spec A.1 range", "C06.3": "provenance of return values",
-              "C06.4": "dominance of the check over each consumer; provenance of the checked value"},
+              "C06.4": "dominance of the check over each consumer; provenance of the checked value", "C06.5": "mutation scan with receiver provenance"},
     "assumptions": ["replies are JSON values (dict keys are strings)"],
 }
 
@@ -47,6 +48,17 @@ def check(ck):
     param = fc.params[0]
     root, region = error_region(g, dom, param)
     ck.stat("error_region_nodes", len(region))
+
+    # ---- C06.5 the reply is not modified by the check ------------------------------------------------------------
+    from rules import common
+    n5 = 0
+    for (n, desc, recv) in common.mutations(fc):
+        t = prov.origin(g, n, recv)
+        if prov.contains(t, lambda x: x == ("param", param)):
+            n5 += 1
+            ck.bad("C06.5", "%s: %s" % (q.fn(fc), desc), "check_for_errors modifies the reply it checks (%s on %s): checking or reading the same reply "
+                   "again (results[i] twice, iterate then index) no longer raises the error" % (desc, prov.show(t)[:50]), q.loc(fc, n))
+    ck.ok("C06.5", "%s: mutation scan" % q.fn(fc), "the reply is never modified (%d mutations of reply-derived objects)" % n5, q.loc(fc, fc.node))
 
     # ---- C06.1 ---------------------------------------------------------------------------------
     an = narrow.Analyzer(prog)
